@@ -50,6 +50,8 @@ type Op struct {
 	Fault         *Fault   `json:"fault,omitempty"`
 	CancelAfterMs int      `json:"cancelAfterMs,omitempty"` // cancel the context this long after the request reached the broker (or after the call began when nothing is held)
 	DeadlineMs    int      `json:"deadlineMs,omitempty"`    // context.WithTimeout
+	CancelBlind   bool     `json:"cancelBlind,omitempty"` // cancel cancelAfterMs after the call began, without waiting for its request to reach a broker
+	MustSucceed   bool     `json:"mustSucceed,omitempty"` // nothing is wrong with this call: it must return its own response
 	ExpectCtx     bool     `json:"expectCtx,omitempty"` // nothing but the end of the context can make this call return (a wire fault holds what it waits for)
 }
 
